@@ -73,8 +73,8 @@ class PrettierCli:
         dquote_depth = 0
         result = ""
         for group in groups:
-            if group == '"':
-                dquote_depth = (dquote_depth + 1) & 0x1
+            if group.startswith('"'):
+                dquote_depth = (dquote_depth + len(group)) & 0x1
             result += group.upper() if dquote_depth == 0 else group
         print(result)
 
